@@ -1,5 +1,7 @@
 CONSTANTS
   LenRP = 4
-  LenX = 3
+  LenX = 4
   LenJ = 4
   JStride = 13
+  XFull = 6
+  XStride = 7
